@@ -129,11 +129,46 @@ def register_units(UNITS, gen):
         zt = gen.parse(repo, "pygopherd/handlers/ZIP.py")
         zc = gen.find_class(zt, "VFSZip")
         sub = any(is_vfs_real(b) for b in zc.bases)
+        # Truthiness of a VFS object.  `if not vfs:` means `vfs is None` only as long as no VFS class
+        # defines __len__ / __bool__ (an archive without members would otherwise count as "no vfs given").
+        import os
+        sites = []
+        defines = []
+        pdir = os.path.join(repo, "pygopherd")
+        for dp, dns, fns in os.walk(pdir):
+            for fn in sorted(fns):
+                if not fn.endswith(".py"):
+                    continue
+                rel = os.path.relpath(os.path.join(dp, fn), repo)
+                t = gen.parse(repo, rel)
+                for n in ast.walk(t):
+                    if isinstance(n, ast.ClassDef) and (n.name.startswith("VFS") or any(is_vfs_real(b) for b in n.bases)):
+                        for m in n.body:
+                            if isinstance(m, ast.FunctionDef) and m.name in ("__len__", "__bool__"):
+                                defines.append(f"{rel}:{n.name}.{m.name}")
+                    tests = []
+                    if isinstance(n, (ast.If, ast.While, ast.IfExp, ast.Assert)):
+                        tests.append(n.test)
+                    if isinstance(n, ast.BoolOp):
+                        tests.extend(n.values)
+                    if isinstance(n, ast.UnaryOp) and isinstance(n.op, ast.Not):
+                        tests.append(n.operand)
+                    for e in tests:
+                        while isinstance(e, ast.UnaryOp) and isinstance(e.op, ast.Not):
+                            e = e.operand
+                        if (isinstance(e, ast.Name) and e.id in ("vfs", "chain")) or \
+                                (isinstance(e, ast.Attribute) and e.attr in ("vfs", "chain")):
+                            sites.append(f"{rel}:{e.lineno}")
+        sites = sorted(set(sites))
         out = ["(* GENERATED by translate/gen_zip.py from pygopherd/handlers/{mbox,pyg,scriptexec,ZIP}.py — do not edit *)",
                "From PG Require Import Model.ZipChain.",
                "Definition repo_tests : real_tests := mk_tests %s %s %s %s %s %s." % tuple(
                    vals[f] for f, _, _ in CLASSES),
-               "Definition vfszip_subclasses_vfs_real : bool := %s." % ("true" if sub else "false")]
+               "Definition vfszip_subclasses_vfs_real : bool := %s." % ("true" if sub else "false"),
+               "(* places where a VFS object is used as a truth value: %s *)" % (", ".join(sites) or "none"),
+               "Definition vfs_truthiness_sites : nat := %d." % len(sites),
+               "(* __len__ / __bool__ defined by a VFS class: %s *)" % (", ".join(defines) or "none"),
+               "Definition vfs_defines_len_or_bool : bool := %s." % ("true" if defines else "false")]
         return "\n".join(out) + "\n"
 
     UNITS["ZipReal"] = unit_zipreal
